@@ -1,7 +1,123 @@
 import KitModel.Go.Prelude
-/-! Driver for property C16: `kitdrv C16` reads op lines on stdin, one answer line per input line. -/
+import KitModel.Streams
+/-!
+Driver for property C16: `kitdrv C16` reads one case per line and answers one line.
+
+  case kind=limit|multi|tee ver=fixed|orig n=<int> wcap=<nat|-> wclos=0|1
+       srcs=<src>|<src>…  ops=<op>,<op>,…
+  <src> = <hex content>:<cap.cap.…>:<withData 0|1>:<term e|b>:<closable 0|1>
+  <op>  = r<m>                 one Read with len(p)=m
+        | d<dflt>:<b1>.<b2>…   consume until the first error (buffer sizes b1,b2,… then dflt)
+        | w                    WriteTo(writer)   (multi only: the io.Copy path)
+        | c                    Close
+        | s                    Stop              (tee only)
+
+Answer: `ok ops=<res>,<res>… closes=<c1>.<c2>… wgot=<hex> wcl=<n>` where
+  <res> = r:<hex>:<err> | d:<hex>:<err> | w:<err> | c | s
+Everything is computed by the definitions of `KitModel/Streams.lean` the theorems are about.
+-/
 namespace Driver.C16
+open Kit Kit.Streams
+
+def parseSrc (s : String) : Option Src :=
+  match s.splitOn ":" with
+  | [hx, sc, wd, tm, cl] => do
+    let content ← fromHex hx
+    let script ← if sc == "" then some [] else (sc.splitOn ".").mapM String.toNat?
+    let term ← (if tm == "e" then some Err.eof else if tm == "b" then some Err.boom else none)
+    some { rest := content, script := script, withData := wd == "1", term := term,
+           closable := cl == "1", closes := 0 }
+  | _ => none
+
+def parseSrcs (s : String) : Option (List Src) :=
+  if s == "" then some [] else (s.splitOn "|").mapM parseSrc
+
+inductive Op where
+  | read (m : Nat)
+  | drain (dflt : Nat) (bufs : List Nat)
+  | writeTo
+  | close
+  | stop
+
+def parseOp (s : String) : Option Op :=
+  match s.toList with
+  | ['w'] => some .writeTo
+  | ['c'] => some .close
+  | ['s'] => some .stop
+  | 'r' :: rest => (String.ofList rest).toNat?.map .read
+  | 'd' :: rest =>
+    match (String.ofList rest).splitOn ":" with
+    | [d, bs] => do
+      let d ← d.toNat?
+      let bs ← if bs == "" then some [] else (bs.splitOn ".").mapM String.toNat?
+      some (.drain d bs)
+    | _ => none
+  | _ => none
+
+def parseOps (s : String) : Option (List Op) :=
+  if s == "" then some [] else (s.splitOn ",").mapM parseOp
+
+inductive St where
+  | limit (l : Limit)
+  | multi (m : Multi) (w : Wr)
+  | tee (t : Tee)
+
+def showRead (tag : String) (d : Bytes) (e : String) : String := s!"{tag}:{toHex d}:{e}"
+
+def stepOp (v : Version) (st : St) (op : Op) : St × String :=
+  match st, op with
+  | .limit l, .read m => let (l', d, e) := Limit.read v l m; (.limit l', showRead "r" d (showErr e))
+  | .limit l, .drain dflt bufs =>
+    let (l', d, e) := Limit.consume v l bufs dflt; (.limit l', showRead "d" d e.name)
+  | .limit l, .close => (.limit l.close, "c")
+  | .multi M w, .read m => let (M', d, e) := M.read m; (.multi M' w, showRead "r" d (showErr e))
+  | .multi M w, .drain dflt bufs =>
+    let (M', d, e) := M.consume bufs dflt; (.multi M' w, showRead "d" d e.name)
+  | .multi M w, .writeTo => let (M', w', e) := M.writeTo v w; (.multi M' w', s!"w:{showErr e}")
+  | .multi M w, .close => (.multi M.close w, "c")
+  | .tee t, .read m => let (t', d, e) := t.read m; (.tee t', showRead "r" d (showErr e))
+  | .tee t, .drain dflt bufs =>
+    let (t', d, e) := t.consume bufs dflt; (.tee t', showRead "d" d e.name)
+  | .tee t, .close => (.tee t.close, "c")
+  | .tee t, .stop => (.tee t.stop, "s")
+  | st, _ => (st, "unsupported")
+
+def runOps (v : Version) : St → List Op → List String → St × List String
+  | st, [], acc => (st, acc.reverse)
+  | st, op :: ops, acc => let (st', r) := stepOp v st op; runOps v st' ops (r :: acc)
+
+def finalState : St → String
+  | .limit l => s!"closes={l.src.closes} wgot= wcl=0"
+  | .multi M w => s!"closes={".".intercalate (M.closeCounts.map toString)} wgot={toHex w.got} wcl={w.closes}"
+  | .tee t => s!"closes={t.src.closes} wgot={toHex t.w.got} wcl={t.w.closes}"
+
+def answer (line : String) : String :=
+  let l := parseLine line
+  if l.op != "case" then "bad op" else
+  let r : Option String := do
+    let kind ← l.get? "kind"
+    let v ← (match l.get? "ver" with
+      | some "orig" => some Version.orig
+      | some "fixed" => some Version.fixed
+      | none => some Version.fixed
+      | _ => none)
+    let srcs ← parseSrcs ((l.get? "srcs").getD "")
+    let ops ← parseOps ((l.get? "ops").getD "")
+    let wcap ← (match l.get? "wcap" with
+      | none => some none
+      | some "-" => some none
+      | some s => s.toNat?.map some)
+    let w : Wr := { got := [], cap := wcap, closable := (l.get? "wclos") == some "1", closes := 0 }
+    let st ← (match kind, srcs with
+      | "limit", [s] => do let n ← l.int? "n"; some (St.limit (Limit.new s n))
+      | "multi", ss => some (St.multi (Multi.new ss) w)
+      | "tee", [s] => some (St.tee (Tee.new s w))
+      | _, _ => none)
+    let (st', rs) := runOps v st ops []
+    some s!"ok ops={",".intercalate rs} {finalState st'}"
+  r.getD "bad case"
+
 def main (_args : List String) : IO UInt32 := do
-  IO.eprintln "kitdrv: C16 has no model driver yet"
-  return 2
+  lineLoop (fun (_ : Unit) line => ((), answer line)) ()
+  return 0
 end Driver.C16
